@@ -141,6 +141,18 @@ def judge(chk, results, prop):
             chk.inconc("watchdog: %s %s" % (r.mode, " ".join(map(str, r.args[-4:]))))
             continue
         reps = r.sanitizer_reports()
+        if "c12-oom" in [str(a) for a in r.args] and "ARMED" in r.out and "SURVIVED" not in r.out and not r.details:
+            # the allocator refused a growth and the process ended inside that write: legitimate iff it is Rust's allocation-failure abort
+            if "memory allocation of" in r.err and not [x for x in reps if not x.startswith(("panic", "miri-ub: the program aborted"))]:
+                total["oom_clean_aborts"] = total.get("oom_clean_aborts", 0) + 1
+                continue
+            chk.violation(name, "%s: the process died inside a write whose growth the allocator refused, without the allocation-failure abort: %s" % (r.mode, (reps or [r.err[-200:]])[0]),
+                          {**r.replay_payload(), "reports": reps})
+            continue
+        if "c12-oom" in [str(a) for a in r.args] and "SURVIVED" in r.out and not r.done and not reps and not r.details:
+            chk.violation(name, "%s: a refused growth was reported as a failure and the process then died (rc=%s) before finishing: %s" % (r.mode, r.rc, r.err[-300:].replace("\n", " ")),
+                          r.replay_payload())
+            continue
         if r.details:
             chk.violation(name, r.details[0], {**r.replay_payload(), "details": r.details, "reports": reps})
         elif reps:
